@@ -1,24 +1,17 @@
 NM = "np_misc_h"
 _fixed = [
     ("c30_body_00_end_of_message", "EndOfMessage body (3,3) accepted with ignored body / (3,2) rejected"),
-    ("c30_body_01_next_protocol", "NextProtocol body (2,2) / (1,1)"),
-    ("c30_body_04_aead_algorithm", "AeadAlgorithm body (2,2) / (2,1)"),
-    ("c30_body_05_new_cookie", "NewCookie body (4,4) / (4,3)"),
     ("c30_body_06_server", "Server body (4,4) accepted iff UTF-8 / (4,3)"),
     ("c30_body_08_keep_alive", "KeepAlive body (0,0) / (1,0)"),
-    ("c30_body_09_supported_protocols", "SupportedNextProtocolList body (2,2) / (1,1)"),
-    ("c30_body_10_supported_algorithms", "SupportedAlgorithmList body (4,4) / (2,2)"),
     ("c30_body_12_fixed_key_request", "FixedKeyRequest body (4,4) / (3,3)"),
     ("c30_body_13_server_deny", "NtpServerDeny body (3,3) accepted iff UTF-8 / (3,2)"),
     ("c30_body_14_authentication", "Authentication body (2,2) accepted iff UTF-8 / (4,2)"),
 ]
 _full = [
     ("c30_full_07_port", "NtsRecord::parse: Port, layout (2,2)"),
-    ("c30_full_15_unknown_critical", "NtsRecord::parse: unknown critical type 15, layout (3,3): fields and critical bit preserved"),
     ("c30_full_7fff_unknown", "NtsRecord::parse: unknown type 0x7fff, empty body"),
     ("c30_full_11_unassigned_truncated", "NtsRecord::parse: unassigned type 11, layout (4,3): rejected"),
     ("c30_full_00_end_of_message", "NtsRecord::parse: EndOfMessage with a 1-byte body"),
-    ("c30_full_04_aead_algorithm", "NtsRecord::parse: AeadAlgorithm, two ids"),
     ("c30_full_05_new_cookie", "NtsRecord::parse: NewCookie, 4 bytes"),
     ("c30_full_02_error_oversize", "NtsRecord::parse: Error with a 3-byte body: rejected"),
 ]
@@ -28,11 +21,11 @@ PROP = dict(
         "the 14 private body parsers NtsRecord::parse_<type> on Take(announced length), driven directly through forwarding hooks",
     ],
     bounds="futures polled once with a no-op waker on in-memory readers that are always ready. Fixed-size bodies (Error, Warning, Port): every announced length 0..=65535, 0..=4 available body bytes, all symbolic. "
-           "Variable-size bodies: one accepted and one rejected (announced length, available bytes) layout per record type with symbolic body bytes (<= 4 bytes). "
-           "Whole-record parser NtsRecord::parse: 8 concrete layouts (incl. unknown critical / non-critical types, truncated and oversize bodies) with symbolic body bytes; truncated headers of 0..=3 bytes. "
+           "Variable-size bodies (EndOfMessage, NewCookie, Server, KeepAlive, FixedKeyRequest, NtpServerDeny, Authentication): one accepted and one rejected (announced length, available bytes) layout per record type with symbolic body bytes (<= 4 bytes). "
+           "Whole-record parser NtsRecord::parse: 7 concrete layouts (incl. unknown critical / non-critical types, truncated and oversize bodies) with symbolic body bytes; truncated headers of 0..=3 bytes. "
            "For every accepted record: consumed exactly header + announced body, fields equal the wire bytes, serialize() reproduces the consumed bytes (up to the critical bit of known types and ignored bodies) and parses back to an equal value.",
     outside="Request::parse, KeyExchangeResponse::parse and the 4096-byte cap (c30_msg / c30_cap of the design): NOT decided. One NtsRecord::parse costs ~40 s of symbolic execution and ~5M SAT variables / 26M clauses (its async state machine is a union over 15 sub-parsers, two with 512-byte buffers, which CBMC treats as opaque bytes); the message parsers nest it in a loop, and a single record round trip through NtsRecord::parse with symbolic lengths already runs out of 8 GB. "
-            "Bodies longer than 4 bytes; announced lengths other than the template values for variable-size records (a symbolic length makes Vec::with_capacity / vec![0; len] symbolic-size objects: out of memory at 8 GB); streams of several records.",
+            "The four u16-list body parsers (NextProtocol, AeadAlgorithm, SupportedNextProtocolList, SupportedAlgorithmList: Vec::push on a heap buffer inside a nested async state machine - the solver ran out of 8 GB even for a single id) are only covered through their shared structure with the fixed-size parsers, NOT decided; bodies longer than 4 bytes; announced lengths other than the template values for variable-size records (a symbolic length makes Vec::with_capacity / vec![0; len] symbolic-size objects: out of memory at 8 GB); streams of several records.",
     assumptions=["readers never return Pending or an I/O error"],
     stub_notes=["completed futures and error values are leaked instead of dropped (drop glue only; no behaviour)"],
     harnesses=[
@@ -40,5 +33,7 @@ PROP = dict(
         H(NM, "c30", "c30_body_07_port", "Port body: every announced length / availability: accepted iff exactly one complete u16; round trip", timeout=400),
         H(NM, "c30", "c30_body_02_error", "Error body, same", timeout=400),
         H(NM, "c30", "c30_body_03_warning", "Warning body, same", timeout=400),
+        H(NM, "c30", "c30_body_05_new_cookie", "NewCookie body (4,4) accepted, fields = wire bytes, round trip / (4,3) rejected", timeout=400),
+        H(NM, "c30", "c30_full_15_unknown_critical", "NtsRecord::parse: unknown critical type 15, layout (3,3): type, critical bit and data preserved, serialises to its input", timeout=400),
     ] + [H(NM, "c30", n, w, tier="thorough") for n, w in _fixed] + [H(NM, "c30", n, w, tier="thorough") for n, w in _full],
 )
